@@ -11,11 +11,12 @@ cp "$src/demo_test.go" "$wt/$place"
 pkg=./$(dirname "$place")
 names=$(grep -o "^func Test[A-Za-z0-9_]*" "$src/demo_test.go" | sed "s/func //" | paste -sd"|")
 [ -z "$names" ] && names="Demo"
+race=""; head -8 "$src/demo_test.go" | grep -q -- "-race" && race="-race"
 cd "$wt"
 {
-echo "== demo on clean tree ($pkg)"; go test -vet=off -count=1 -run "^($names)\$" "$pkg" 2>&1 | tail -3; c1=${PIPESTATUS[0]}
+echo "== demo on clean tree ($pkg)"; go test $race -vet=off -count=1 -run "^($names)\$" "$pkg" 2>&1 | tail -3; c1=${PIPESTATUS[0]}
 git apply "$src/patch.diff" || { echo "patch failed"; }
-echo "== demo on patched tree"; go test -vet=off -count=1 -run "^($names)\$" "$pkg" 2>&1 | tail -6; c2=${PIPESTATUS[0]}
+echo "== demo on patched tree"; go test $race -vet=off -count=1 -run "^($names)\$" "$pkg" 2>&1 | tail -6; c2=${PIPESTATUS[0]}
 rm -f "$wt/$place"
 echo "== existing suite on patched tree"; go build ./... && go test -vet=off -count=1 -timeout 25m ./... 2>&1 | grep -v "no test files" | tail -14; c3=${PIPESTATUS[0]}
 echo "RESULT demo_clean_exit=$c1 demo_patched_exit=$c2 suite_exit=$c3"
